@@ -743,6 +743,117 @@ def run_property(prop, cfg, tier, known, only=None):
         res["samples"].append(sample)
         say(f"  [{unit:>22}] paths={sample.get('paths')} obligations={len(sample['queries'])}")
 
+        # ---- string bodies: decode_body hands every body to the charset's decoder and passes its verdict on
+        unit = "decode_body"
+        sample = {"unit": unit, "what": "crux_http::response::decode::decode_body (native `encoding` build, non-inlined MIR): label lookup, one decoder call, its verdict passed on", "queries": []}
+        decode_failed = []
+        try:
+            from .c04m import ExecC
+            from .c16m import dump_http_light
+            from .mir import venum
+            light, errL, _ = dump_http_light(prop)
+            if light is None:
+                raise Unsupported("non-inlined MIR dump of crux_http failed: " + errL[-200:])
+            fnD = one_fn(light, r"^fn (?:response::decode::)?decode_body\(_1: Vec<u8>, _2: (?:std::option::)?Option<&str>\)", "decode_body")
+            for s_ in (z3, cv):
+                for v_ in ("known", "cow"):
+                    s_.send(f"(declare-const {v_} Int)")
+                    s_.send(f"(assert (and (>= {v_} 0) (<= {v_} 1)))")
+                s_.send("(declare-const failed Bool)")
+
+            class ContractsD:
+                def __init__(self):
+                    self.fresh = []
+
+                def call(self, ex, st, callee, args):
+                    c = re.sub(r"\s+", " ", callee)
+                    if re.search(r"Option::<&str>::unwrap_or$", c):
+                        return [("true", vopaque("LABEL"))]
+                    if re.search(r"str>::as_bytes$|<impl str>::as_bytes$", c):
+                        return [("true", args[0])]
+                    if re.search(r"Encoding::for_label(_no_replacement)?$", c):
+                        st.notes.append(("call", "for_label", tok(args[0])))
+                        return [("(= known 0)", venum("Option", "None", [])), ("(= known 1)", venum("Option", "Some", [vopaque("ENC")]))]
+                    if re.search(r"^<Vec<u8> as Deref>::deref$", c):
+                        return [("true", vopaque("BYTES[..]"))]
+                    if re.search(r"Encoding::decode(_with_bom_removal|_without_bom_handling)?$", c):
+                        st.notes.append(("call", "decode", tok(args[0]), tok(args[1])))
+                        return [("(= cow 0)", vagg([venum("Cow", "Borrowed", [vopaque("BORROWED")]), vopaque("ENC-USED"), vbool("failed")])),
+                                ("(= cow 1)", vagg([venum("Cow", "Owned", [vopaque("DECODED")]), vopaque("ENC-USED"), vbool("failed")]))]
+                    if re.search(r"String::from_utf8_unchecked$", c):
+                        return [("true", vopaque("STRING-OF(" + tok(args[0]) + ")"))]
+                    if re.search(r"String::from_utf8(_lossy)?$", c):
+                        st.notes.append(("call", "other-decoder", c))
+                    if getattr(ex, "cur_dest_ty", None) == "bool":
+                        name_ = f"db{len(self.fresh)}"
+                        self.fresh.append(name_)
+                        for s_ in (z3, cv):
+                            s_.send(f"(declare-const {name_} Bool)")
+                        st.notes.append(("call", "test", c[-60:]))
+                        return [("true", vbool(name_))]
+                    return [("true", vopaque(c.split("::")[-1] + "(" + ", ".join(tok(a) for a in args) + ")"))]
+
+            exD = ExecC(fnD, ContractsD(), None)
+            pathsD = exD.run_from(State({"_1": vopaque("BYTES"), "_2": vopaque("LABELOPT")}, []), "bb0")
+            sample.update({"mir_function": fnD.name, "paths": len(pathsD), "mir_steps": exD.steps})
+            for i, (pc, outcome, notes) in enumerate(pathsD):
+                cs = [n_[1:] for n_ in notes if n_[0] == "call"]
+                decs = [c_ for c_ in cs if c_[0] == "decode"]
+                pcs = "(and true " + " ".join(pc) + ")"
+                rF, _, abF = ask(pcs)
+                if isinstance(outcome, Panic):
+                    goal, t = "false", "PANIC " + outcome.msg
+                else:
+                    t = tok(outcome)
+                    one_dec = len(decs) == 1 and decs[0][1] == "ENC" and "BYTES" in decs[0][2]
+                    is_err = t.startswith("Err(")
+                    ok_borrowed = t.startswith("Ok(STRING-OF(") and "BYTES" in t
+                    ok_owned = t == "Ok(DECODED)"
+                    goal = (f"(and (=> (= known 0) {'true' if is_err and not decs else 'false'}) "
+                            f"(=> (= known 1) (and {'true' if one_dec else 'false'} (=> failed {'true' if is_err else 'false'}) "
+                            f"(=> (and (not failed) (= cow 0)) {'true' if ok_borrowed else 'false'}) (=> (and (not failed) (= cow 1)) {'true' if ok_owned else 'false'}))))")
+                name_ = f"path {i}: an unknown label is an error; a known label's decoder is asked exactly once about the whole body and its verdict is the outcome (failed => error, borrowed => the bytes themselves, owned => its string)"
+                res["obligations"] += 1
+                r2, _, ab2 = ask(f"(and {pcs} (not {goal}))")
+                sample["queries"].append({"obligation": name_, "path_feasible": rF, "calls": [c_[0] for c_ in cs], "outcome": t[:50], "z3": ab2[0], "cvc5": ab2[1]})
+                if rF == "sat" and r2 == "unsat":
+                    witnesses.add(f"{unit}: {[c_[0] for c_ in cs]} -> {t[:24]}")
+                if r2 == "unsat" or (r2 == "sat" and rF == "unsat"):
+                    res["decided"] += 1
+                    res["discharged"] += 1
+                elif r2 == "sat":
+                    res["decided"] += 1
+                    decode_failed.append(f"{unit}: {name_} (calls {[c_[0] for c_ in cs]}, outcome {t[:40]})")
+                else:
+                    inconclusive(f"{unit}: solver answered {ab2}")
+        except (Unsupported, KeyError, IndexError, AttributeError, ValueError, TypeError) as u:
+            decode_failed.append(f"{unit}: not in the shape the encoding knows ({type(u).__name__}: {str(u)[:120]})")
+            sample["encoder_gap"] = f"{type(u).__name__}: {u}"
+        res["samples"].append(sample)
+        say(f"  [{unit:>22}] paths={sample.get('paths')} obligations={len(sample['queries'])}")
+        dec_cases = [("utf-8", "6869", "STR 6869"), ("utf-8", "ff", "ERR"), ("utf-16le", "68006900", "STR 6869"), ("utf-16be", "00680069", "STR 6869"), ("utf-16", "68006900", "STR 6869"),
+                     ("utf-16le", "680069", "ERR"), ("iso-2022-jp", "1b2442243b1b2842", "STR e3819b"), ("iso-2022-jp", "6869", "STR 6869"), ("windows-1252", "e9", "STR c3a9"),
+                     ("iso-8859-1", "e9", "STR c3a9"), ("shift_jis", "82a0", "STR e38182"), ("hz-gb-2312", "6869", "ERR"), ("iso-2022-kr", "6869", "ERR"), ("no-such-charset", "6869", "ERR"),
+                     ("-", "6869", "STR 6869"), ("-", "c3a9", "STR c3a9"), ("-", "ff", "ERR"), ("utf-8", "", "STR ")]
+        pD = subprocess.run([binp], input="".join(f"D {l_} {h_}\n" for l_, h_, _ in dec_cases), capture_output=True, text=True, timeout=300)
+        gotD = pD.stdout.strip("\n").split("\n")
+        devD = [(c_, g_) for c_, g_ in zip(dec_cases, gotD) if g_.strip() != c_[2].strip()] if len(gotD) == len(dec_cases) else [(("?", "?", "?"), f"driver printed {len(gotD)} lines")]
+        res["validated_inputs"] = res.get("validated_inputs", 0) + len(dec_cases)
+        res["notes"].append(f"native decode scenarios (charset label x body through expect_string): {len(dec_cases)}, deviations: {len(devD)}")
+        if decode_failed and devD:
+            os.makedirs(os.path.join(REPLAYS, prop), exist_ok=True)
+            (l_, h_, e_), g_ = devD[0]
+            rp = os.path.join(REPLAYS, prop, f"decode_body-{re.sub(r'[^a-z0-9]+', '_', l_)}-{h_[:16]}.json")
+            json.dump({"property": prop, "engine": "mir", "module": "c15", "unit": unit, "decode": [l_, h_], "expected": e_, "native": g_, "obligation": decode_failed[0]}, open(rp, "w"), indent=1)
+            say(f"VIOLATION property={prop} replay={rp}")
+            say(f"  {decode_failed[0][:260]}; charset `{l_}` body {h_}: a conforming decoder yields `{e_}`, real code -> `{g_}`")
+            res["findings"].append({"known": False, "unit": unit, "desc": decode_failed[0][:120], "replay": rp})
+            state["code"] = EXIT_VIOLATION
+        elif decode_failed:
+            inconclusive(f"{decode_failed[0][:220]} - but none of the {len(dec_cases)} native decode scenarios deviates")
+        elif devD and state["code"] == EXIT_OK:
+            inconclusive(f"decode scenario {devD[0][0][:2]} deviates natively (`{devD[0][1]}` vs `{devD[0][0][2]}`) although every obligation was discharged")
+
         # ---- translator / contract validation: every status through the real code vs the encoding's prediction
         tv0 = time.time()
         p = subprocess.run([binp, "all"], capture_output=True, text=True, timeout=600)
@@ -755,7 +866,7 @@ def run_property(prop, cfg, tier, known, only=None):
             pred = "PANIC" if k not in tset else (f"OK {k} 1" if k < 400 else f"ERRHTTP {k} 1")
             if real != pred:
                 mism.append({"status": k, "real": real, "encoding": pred})
-        res["validated_inputs"] = len(lines)
+        res["validated_inputs"] = res.get("validated_inputs", 0) + len(lines)
         res["notes"].append(f"translator/contract validation: {len(lines)} statuses through the real response path (command API) vs the encoding: "
                             f"{len(mism)} mismatches ({time.time() - tv0:.0f}s)")
         if len(lines) != 65536:
@@ -791,6 +902,12 @@ def replay_file(path):
     if not ok:
         say("native driver does not build")
         return EXIT_INCONCLUSIVE
+    if "decode" in rec:
+        l_, h_ = rec["decode"]
+        p_ = subprocess.run([binp], input=f"D {l_} {h_}\n", capture_output=True, text=True, timeout=120)
+        got = p_.stdout.strip()
+        say(f"charset `{l_}` body {h_}: a conforming decoder yields `{rec['expected']}`; real code now: `{got}`")
+        return EXIT_VIOLATION if got != rec["expected"].strip() else EXIT_OK
     if "shell_error" in rec:
         p_ = subprocess.run([binp], input=f"E {rec['shell_error']}\n", capture_output=True, text=True, timeout=120)
         got, _, sent = p_.stdout.strip().partition(" | SENT ")
